@@ -159,16 +159,18 @@ Proof.
 Qed.
 
 (** ** exactness at powers of two: the mantissa is 0 *)
+Lemma step_y_at_one mb : 1 <= mb -> step_y mb (2 ^ mb) = 2 ^ mb.
+Proof.
+  intros Hmb. unfold step_y.
+  assert (Hp : 0 < 2 ^ mb) by (apply pow2_gt0; lia).
+  assert (Hh : 0 < 2 ^ (mb - 1) < 2 ^ mb).
+  { split; [apply pow2_gt0; lia|apply Z.pow_lt_mono_r; lia]. }
+  symmetry. apply Z.div_unique with (r := 2 ^ (mb - 1)); lia.
+Qed.
+
 Lemma step_at_one mb : 1 <= mb -> blog_step mb (2 ^ mb) = (false, 2 ^ mb).
 Proof.
-  intros Hmb. rewrite blog_step_spec by exact Hmb.
-  assert (Hy : step_y mb (2 ^ mb) = 2 ^ mb).
-  { unfold step_y.
-    assert (Hp : 0 < 2 ^ mb) by (apply pow2_gt0; lia).
-    assert (Hh : 0 < 2 ^ (mb - 1) < 2 ^ mb).
-    { split; [apply pow2_gt0; lia|apply Z.pow_lt_mono_r; lia]. }
-    symmetry. apply Z.div_unique with (r := 2 ^ (mb - 1)); lia. }
-  rewrite Hy.
+  intros Hmb. rewrite blog_step_spec by exact Hmb. rewrite (step_y_at_one mb Hmb).
   assert (2 ^ mb < 2 ^ (mb + 1)) by (apply Z.pow_lt_mono_r; lia).
   destruct (2 ^ (mb + 1) <=? 2 ^ mb) eqn:E; [apply Z.leb_le in E; lia|reflexivity].
 Qed.
